@@ -58,10 +58,10 @@ type TLCStats struct {
 }
 
 var (
-	reStates   = regexp.MustCompile(`^(\d+) states generated, (\d+) distinct states found`)
-	reDepth    = regexp.MustCompile(`^The depth of the complete state graph search is (\d+)`)
-	reCovZero  = regexp.MustCompile(`^<(\w+) line .*>: 0:0`)
-	reSimStats = regexp.MustCompile(`^The number of states generated: (\d+)`)
+	reStates    = regexp.MustCompile(`^(\d+) states generated, (\d+) distinct states found`)
+	reDepth     = regexp.MustCompile(`^The depth of the complete state graph search is (\d+)`)
+	reCovZero   = regexp.MustCompile(`^<(\w+) line .*>: 0:0`)
+	reSimStats  = regexp.MustCompile(`^The number of states generated: (\d+)`)
 	reSimTraces = regexp.MustCompile(`(\d+) traces generated`)
 )
 
